@@ -654,11 +654,22 @@ class int_tolist:
                 return x
             return conv(r)
 
+        self.orig_item = st.Tensor.item
+        orig_item = self.orig_item
+
+        def item(t):
+            v = orig_item(t)
+            if not t.dtype.is_floating_point and isinstance(v, E) and v.is_const() and v.value().denominator == 1:
+                return int(v.value())
+            return v
+
         st.Tensor.tolist = tolist
+        st.Tensor.item = item
         return self
 
     def __exit__(self, *a):
         st.Tensor.tolist = self.orig
+        st.Tensor.item = self.orig_item
         return False
 
 
